@@ -70,6 +70,16 @@ check("C19", "DESIGN.md 5/C19",
       "Trusted: gamma/alpha between abstract values and the objects (alpha(gamma(t)) = t is itself checked). Bounded: shape family of "
       "depth 3, histories of <= 3-4 operations over 3 keys / 6 terms.")
 
+check("C02", "DESIGN.md 5/C02",
+      "TLA+ model Materialize.tla (null discovery, level discovery, contrast coding, rank reduction, row-wise Kronecker product in "
+      "exact integers) with layout/scale theorems model-checked in TLC; exhaustive replay of every enumerated (formula, frame, options) "
+      "through model_matrix for the three outputs",
+      "TLC proves on every case in the bound that without rank reduction each term is the complete Kronecker product of the full "
+      "encodings, that the intercept is a column of ones and that the literal scale is carried exactly once; the real model_matrix is "
+      "compared name for name and cell for cell with the matrix the specification computes, for pandas, numpy and sparse output.",
+      "Trusted: gamma (abstract frame -> DataFrame) and alpha (asarray/toarray). Verdict is equality with the model's matrix; under rank "
+      "reduction this also fixes the reduced/full choice to the greedy one the model transcribes.")
+
 NOT_YET = "check not yet built in this round (planned; see DESIGN.md section 5)"
 
 
